@@ -27,6 +27,11 @@ type Part struct {
 	// Results: one comment line per package-level function of the processed package (in name order) with
 	// what Package.ResultsOf reports for it - what a generator collecting the errors of handlers does.
 	Results bool `json:"results,omitempty"`
+	// Via: how the generator hands the part over. "" a snippet built for this call; "expose-shared" (Ref
+	// parts) a snippet.PkgExpose value built once per process and reused for every package, generator
+	// and run (a package-level variable of the generator's package); "lazy" (Text parts) a snippet.Func
+	// closure that reads a scratch field of the generator which is overwritten right after Render returns.
+	Via string `json:"via,omitempty"`
 }
 
 // Rule says what a scripted generator does for one (package, type).
